@@ -184,8 +184,8 @@ static void mean_case(Tape& t, Ctx& c)
 // ---------------------------------------------------------------- composed filters: equal to applying the components in order
 static void composed_case(Tape& t, Ctx& c)
 {
-  long n = t.sized(1, 20, 3); int vcls = t.pick({3, 1}); int op = t.range(0, 3); int kind = t.range(0, 8);
-  static const char* kn[] = {"chain<unit,mean>", "sequence<unit>", "tuple<unit,unit_blocked2>", "power<unit,2>", "none", "tuple<unit_blocked2,mean>", "tuple<unit,none,mean>", "power<mean,3>", "chain<unit,mean,unit>"};
+  long n = t.sized(1, 20, 3); int vcls = t.pick({3, 1}); int op = t.range(0, 3); int kind = t.range(0, 9);
+  static const char* kn[] = {"chain<unit,mean>", "sequence<unit>", "tuple<unit,unit_blocked2>", "power<unit,2>", "none", "tuple<unit_blocked2,mean>", "tuple<unit,none,mean>", "power<mean,3>", "chain<unit,mean,unit>", "sequence<mean>"};
   std::string ic1, ic2; std::vector<long> i1 = gen_index_set(t, n, ic1), i2 = gen_index_set(t, n, ic2);
   std::vector<double> v1 = gen_values(t, i1.size(), vcls), v2 = gen_values(t, i2.size() * 2, vcls), va = gen_values(t, (size_t)n, vcls), vb = gen_values(t, (size_t)(2 * n), vcls);
   std::vector<double> prim((size_t)n), dual((size_t)n); for(long i = 0; i < n; ++i) { prim[(size_t)i] = 1.0 + std::fabs(t.real(1)); dual[(size_t)i] = 0.5 + std::fabs(t.real(1)); }
@@ -231,6 +231,11 @@ static void composed_case(Tape& t, Ctx& c)
   case 8: { /* the emplacement ctor of FilterChain does not compile for three members (std::move of a pack) */ FilterChain<UnitFilter<DT, IT>, MeanFilter<DT, IT>, UnitFilter<DT, IT>> ch; ch.template at<0>() = mk_unit(i1, v1, 1); ch.template at<1>() = mk_mean(); ch.template at<2>() = mk_unit(i2, v2, 2); DV a((Index)n), b((Index)n); vfill_all(a, va); vfill_all(b, va);
     apply_op(ch, a, op); auto u = mk_unit(i1, v1, 1); auto m = mk_mean(); auto u2 = mk_unit(i2, v2, 2); apply_op(u, b, op); apply_op(m, b, op); apply_op(u2, b, op);
     std::string x, y; vbytes(a, x); vbytes(b, y); VF_CHECK(x == y, "FilterChain<unit,mean,unit> differs from applying its members in order"); break; }
+  case 9: { // a sequence of mean filters (e.g. one per disconnected pressure region): weights of the two members differ
+    auto mk_mean2 = [&]() { DV p((Index)n), d((Index)n); std::vector<double> p2(prim), d2(dual); for(long i = 0; i < n; ++i) { p2[(size_t)i] = prim[(size_t)(n - 1 - i)] + 0.25; d2[(size_t)i] = dual[(size_t)(n - 1 - i)] * 1.5; } vfill_all(p, p2); vfill_all(d, d2); return MeanFilter<DT, IT>(std::move(p), std::move(d), DT(0)); };
+    FilterSequence<MeanFilter<DT, IT>> sq; sq.push_back(std::make_pair(String("first"), mk_mean())); sq.push_back(std::make_pair(String("second"), mk_mean2()));
+    DV a((Index)n), b((Index)n); vfill_all(a, va); vfill_all(b, va); apply_op(sq, a, op); auto m1 = mk_mean(); auto m2 = mk_mean2(); apply_op(m1, b, op); apply_op(m2, b, op);
+    std::string x, y; vbytes(a, x); vbytes(b, y); VF_CHECK(x == y, "FilterSequence<mean> differs from applying its members in order"); break; }
   default: { NoneFilter<DT, IT> nf; DV a((Index)n); vfill_all(a, va); std::string x, y; vbytes(a, x); apply_op(nf, a, op); vbytes(a, y); VF_CHECK(x == y, "NoneFilter changed the vector"); break; }
   }
 }
